@@ -1,6 +1,6 @@
 """C12 — every emitted TR-31 key block and header string is well-framed."""
 from core import Case, call_impl
-from props.tr31util import VERS, rb, rs, rand_blocks, make_header, header_tuple, wrap_case, tr31
+from props.tr31util import VERS, rb, rs, rand_blocks, make_header, header_tuple, wrap_case, tr31, Session, clone_header
 
 OBLIGATIONS = ["Psec.Props.C12.wrap_framing", "Psec.Props.C12.str_reload", "Psec.Props.C12.pad_block_arith", "Psec.Tr31.blocksDump_shape", "Psec.Tr31.blocksDump_printable"]
 TRUSTED_BASE = ["Lean 4.33 kernel", "correspondence harness (entropy interposed) and compiled driver", "the framing predicate below is an independent Python reading of the property"]
@@ -98,8 +98,49 @@ def scenario(c, rng, ver, blocks, keylen, mask, ksize=None):
     return w
 
 
+def reused_header(c, rng):
+    """one Header object serialised repeatedly while its version, attributes and blocks change in between:
+    every string form and every key block must be framed for the version in force"""
+    ver = rng.choice("ABCD")
+    h = make_header(rng, ver, rand_blocks(rng, rng.randrange(1, 3), [rng.randrange(0, 40)]))
+    se = Session(c, rb(rng, 16 if ver != "D" else rng.choice((16, 24))), h)
+    for _ in range(rng.randrange(3, 7)):
+        what = rng.choice(["str", "wrap", "version", "version", "setblock", "delblock", "alg"])
+        cur = se.kb.header.version_id
+        if what == "version":
+            se.set(0, rng.choice([v for v in "ABCD" if len(se.kbpk) in VERS[v][1]]))
+        elif what == "alg":
+            se.set(2, rng.choice("TDA0"))
+        elif what == "setblock":
+            se.setblock(rs(rng, 2).replace("P", "Q").replace("p", "q"), rs(rng, rng.randrange(0, 30)))
+        elif what == "delblock":
+            ks = list(se.kb.header.blocks._blocks)
+            if ks:
+                se.delblock(rng.choice(ks))
+        elif what == "str":
+            r = se.str()
+            bs = VERS[cur][0]
+            if r.ok and (len(r.value) % bs or r.value[1:5] != str(len(r.value)).zfill(4)):
+                c.fail(f"str(header) of a reused header is not framed for version {cur}: {r.value[:60]}")
+            if r.ok:
+                g = tr31.Header()
+                q = call_impl(g.load, (r.value,), stream="tr31")
+                if not q.ok or q.value != len(r.value) or header_tuple(g) != header_tuple(se.kb.header):
+                    c.fail("str(header) of a reused header does not re-load to an equal header")
+        else:
+            w = se.wrap(rb(rng, rng.choice([0, 8, 16, 24])), rng.choice([None, 0, 32]))
+            if w.ok:
+                m = framing(w.value, cur, se.kb.header)
+                if m:
+                    c.fail(f"key block from a reused header (version {cur}): {m}")
+
+
 def generate(rng, tier, seed):
     top = 200 if tier == "quick" else 600
+    for _ in range(60 if tier == "quick" else 400):
+        c = Case("reused-header-sequence", {})
+        reused_header(c, rng)
+        yield c
     for ver, (bs, ksizes, ml) in VERS.items():
         if tier == "quick" and ver == "C":
             continue
